@@ -12,10 +12,17 @@ RECURSIVE SumOver(_, _)
 SumOver(S, input) == IF S = {} THEN 0 ELSE LET q == CHOOSE x \in S : TRUE IN input[q + 1] + SumOver(S \ {q}, input)
 Range(off, n) == [k \in 1..n |-> off + k - 1]
 \* a recorded view must be the contiguous range the specification computes: offset, dimensions, and what was read through it
+\* a write through the mutable form of the view (the k-th element of the view in lexicographic order receives a marker encoding k, the
+\* root is compared element by element before/after): exactly the aliased elements change (`wn` of them), marker k arrives at the
+\* k-th aliased element (`wland[k]` = its flat position; large views: the first position and "consecutive")
+WriteOK(v) == /\ Ev.wn = Size(v.dims)
+              /\ IF Ev.full THEN Ev.wland = Range(v.off, Size(v.dims))
+                 ELSE Ev.wcontig /\ (Size(v.dims) > 0 => Ev.wfirst = v.off)
 ViewOK(v) == /\ Ev.off = v.off /\ Ev.dims = v.dims /\ Ev.count = Size(v.dims)
              /\ Ev.inside                                               \* [data, data + size) within the root buffer
              /\ IF Ev.full THEN Ev.elems = Range(v.off, Size(v.dims))   \* read by full indexing of the view, lexicographic order
                 ELSE Ev.sum = RangeSum(v.off, Size(v.dims))
+             /\ ("wn" \in DOMAIN Ev) => WriteOK(v)
 \* offsets of all index tuples in lexicographic order: the row-major bijection
 Offsets == /\ Is("Offsets") /\ l' = l + 1 /\ Len(Ev.offs) = Size(Ev.d)
            /\ \A p \in 0..(Size(Ev.d) - 1) : Ev.offs[p + 1] = Offset(Ev.d, Unrank(Ev.d, p)) /\ Ev.offs[p + 1] = p
@@ -26,11 +33,36 @@ SubView == /\ Is("Sub") /\ l' = l + 1 /\ Len(Ev.prefix) < Len(Ev.d)
                      ELSE [off |-> Offset(Ev.d, Ev.prefix), dims |-> SubSeq(Ev.d, Len(Ev.d) - 1, Len(Ev.d))])     \* matrix: the last two dimensions
 SliceView == /\ Is("Slice") /\ l' = l + 1 /\ 0 <= Ev.b /\ Ev.b <= Ev.en /\ Ev.en <= Ev.d[1] /\ ViewOK(Slice(Ev.d, Ev.b, Ev.en))
 ReshapeView == /\ Is("Reshape") /\ l' = l + 1 /\ Size(Reshape(Ev.d, Ev.nd).dims) = Size(Ev.d) /\ ViewOK(Reshape(Ev.d, Ev.nd))
+\* views of views (ops: <<0, b, e>> slice, <<1, i...>> tensor(i...), <<2, sizes...>> reshape, <<3, i...>> vector(i...), <<4, i...>> matrix(i...))
+\* alias the same elements as full indexing: each operation applies to the dimensions of the view before it, offsets add up
+OpValid(dims, op) == LET a == Tail(op) IN
+    CASE op[1] = 0 -> Len(dims) >= 1 /\ 0 <= a[1] /\ a[1] <= a[2] /\ a[2] <= dims[1]
+      [] op[1] \in {1, 3} -> Len(a) < Len(dims) /\ \A k \in DOMAIN a : a[k] >= 0 /\ a[k] < dims[k]
+      [] op[1] = 4 -> Len(a) + 2 = Len(dims) /\ \A k \in DOMAIN a : a[k] >= 0 /\ a[k] < dims[k]
+      [] op[1] = 2 -> Cardinality({k \in DOMAIN a : a[k] = -1}) <= 1 /\ Size(Reshape(dims, a).dims) = Size(dims)
+      [] OTHER -> FALSE
+ApplyOp(v, op) == LET a == Tail(op) IN
+    CASE op[1] = 0 -> [off |-> v.off + Slice(v.dims, a[1], a[2]).off, dims |-> Slice(v.dims, a[1], a[2]).dims]
+      [] op[1] = 1 -> [off |-> v.off + Sub(v.dims, a).off, dims |-> Sub(v.dims, a).dims]
+      [] op[1] = 2 -> [off |-> v.off, dims |-> Reshape(v.dims, a).dims]
+      [] op[1] = 3 -> [off |-> v.off + Offset(v.dims, a), dims |-> <<Size(SubSeq(v.dims, Len(a) + 1, Len(v.dims)))>>]
+      [] op[1] = 4 -> [off |-> v.off + Offset(v.dims, a), dims |-> SubSeq(v.dims, Len(v.dims) - 1, Len(v.dims))]
+RECURSIVE ApplyOps(_, _, _)
+ApplyOps(v, ops, k) == IF k > Len(ops) THEN v ELSE ApplyOps(ApplyOp(v, ops[k]), ops, k + 1)
+RECURSIVE OpsValid(_, _, _)
+OpsValid(v, ops, k) == k > Len(ops) \/ (OpValid(v.dims, ops[k]) /\ OpsValid(ApplyOp(v, ops[k]), ops, k + 1))
+Chain == /\ Is("Chain") /\ l' = l + 1 /\ Len(Ev.ops) >= 1
+         /\ OpsValid([off |-> 0, dims |-> Ev.d], Ev.ops, 1)
+         /\ ViewOK(ApplyOps([off |-> 0, dims |-> Ev.d], Ev.ops, 1))
 \* gather along the first axis: a copy (not aliasing the root) of the selected sub-tensors
-Gather == /\ Is("Gather") /\ l' = l + 1 /\ ~Ev.aliases
-          /\ Ev.dims = [Ev.d EXCEPT ![1] = Len(Ev.indices)]
-          /\ LET inner == Prod(Ev.d, 2) IN
-             Ev.elems = [k \in 1..(Len(Ev.indices) * inner) |-> Ev.indices[(k - 1) \div inner + 1] * inner + ((k - 1) % inner)]
+GatherOK == /\ ~Ev.aliases
+            /\ Ev.dims = [Ev.d EXCEPT ![1] = Len(Ev.indices)]
+            /\ LET inner == Prod(Ev.d, 2) IN
+               Ev.elems = [k \in 1..(Len(Ev.indices) * inner) |-> Ev.indices[(k - 1) \div inner + 1] * inner + ((k - 1) % inner)]
+Gather == /\ Is("Gather") /\ l' = l + 1 /\ GatherOK
+\* ... converted to another scalar type, into a used owning tensor, into a given mutable map (`guards`: the map stays where it is and the
+\* elements of its buffer before and after the mapped range are untouched)
+GatherInto == /\ Is("GatherInto") /\ l' = l + 1 /\ GatherOK /\ Ev.guards
 \* summed-area table = naive prefix sums (all index tuples componentwise <=), values and results in lexicographic order
 Integral == /\ Is("Integral") /\ l' = l + 1 /\ Len(Ev.input) = Size(Ev.d) /\ Len(Ev.output) = Size(Ev.d)
             /\ \A p \in 0..(Size(Ev.d) - 1) :
@@ -38,14 +70,16 @@ Integral == /\ Is("Integral") /\ l' = l + 1 /\ Len(Ev.input) = Size(Ev.d) /\ Len
                      below == {q \in 0..(Size(Ev.d) - 1) : \A k \in DOMAIN Ev.d : Unrank(Ev.d, q)[k] <= ix[k]}
                  IN Ev.output[p + 1] = SumOver(below, Ev.input)
 \* conversions between owning / mapping / constant-mapping storages keep contents; maps alias, copies do not
+\* assigning an owning / constant / mutable map to a mutable map copies the contents into its buffer and does not re-seat it
 Storage == /\ Is("Storage") /\ l' = l + 1 /\ Ev.mapAliases /\ Ev.cmapAliases /\ Ev.copyOwns /\ Ev.sameContents /\ Ev.sameDims
+           /\ Ev.mapAssignCopies /\ Ev.mapAssignKeepsSeat
 \* remove_if over parallel tensors: the kept rows in order
 RemoveIf == /\ Is("RemoveIf") /\ l' = l + 1
             /\ LET kept == SelectSeq(Range(0, Len(Ev.flags)), LAMBDA i : Ev.flags[i + 1] = 0) IN
                Ev.size = Len(kept) /\ Ev.rows = kept /\ Ev.rows2 = kept /\ Ev.rows3 = kept /\ Ev.rows4 = kept   \* whole sub-tensors, any rank
 \* stack(rows, cols, blocks...): vertical concatenation
 Stack == /\ Is("Stack") /\ l' = l + 1 /\ Ev.ok
-Next == Offsets \/ SubView \/ SliceView \/ ReshapeView \/ Gather \/ Integral \/ Storage \/ RemoveIf \/ Stack
+Next == Offsets \/ SubView \/ SliceView \/ ReshapeView \/ Chain \/ Gather \/ GatherInto \/ Integral \/ Storage \/ RemoveIf \/ Stack
 Init == l = 1
 Spec == Init /\ [][Next]_l
 Accepted == LET dd == TLCGet("stats").diameter IN
